@@ -107,6 +107,8 @@ EVENTS = {
     # a subclass of Money (a quantity type of its own) and a currency in it
     'Tok': (['type', 'Tok', None, None, 'Money'], ['Money'], 'valid'),
     'TokCHF': (['curin', 'Tok', 'CHF'], ['Tok'], 'valid'),
+    'Tok2': (['type', 'Tok2', None, None, 'Tok'], ['Tok'], 'valid'),
+    'Tok2SEK': (['curin', 'Tok2', 'SEK'], ['Tok2'], 'valid'),
     # an ISO code declared directly, and its registration afterwards
     'JPYhand': (['newcur', 'JPY', 2, None], [], 'valid'),
     '!JPYreg': (['cur', 'JPY'], ['JPY'], 'invalid:duplicate symbol'),
